@@ -256,27 +256,15 @@ Proof.
 Qed.
 
 (* ---- the entry points ------------------------------------------------------------------
-   Color::render_fg / render_bg / render_underline dispatch on the kind of colour to the
-   translated buffer functions (the dispatch itself returns `impl Display` and is pinned, not
-   translated); what Display then shows is DisplayBuffer::as_str, i.e. [rn_dbuf_abs]. *)
-Definition gr_color_fg_buffer (c : color) : option rn_dbuf :=
-  match c with
-  | CoAnsi a => gr_ansi_fg_buffer a
-  | CoAnsi256 n => gr_a256_fg_buffer n
-  | CoRgb r g b => gr_rgb_fg_buffer (r, g, b)
-  end.
-Definition gr_color_bg_buffer (c : color) : option rn_dbuf :=
-  match c with
-  | CoAnsi a => gr_ansi_bg_buffer a
-  | CoAnsi256 n => gr_a256_bg_buffer n
-  | CoRgb r g b => gr_rgb_bg_buffer (r, g, b)
-  end.
-Definition gr_color_ul_buffer (c : color) : option rn_dbuf :=
-  match c with
-  | CoAnsi a => gr_ansi_underline_buffer a
-  | CoAnsi256 n => gr_a256_underline_buffer n
-  | CoRgb r g b => gr_rgb_underline_buffer (r, g, b)
-  end.
+   Color::render_fg / render_bg / render_underline (translated: the DisplayBuffer they return as
+   `impl Display`), on the Rust enum with its payloads ([rn_color_view_of]); what Display then
+   shows is DisplayBuffer::as_str. *)
+Definition gr_color_fg_buffer (c : color) : option rn_dbuf := gr_color_render_fg (rn_color_view_of c).
+Definition gr_color_bg_buffer (c : color) : option rn_dbuf := gr_color_render_bg (rn_color_view_of c).
+Definition gr_color_ul_buffer (c : color) : option rn_dbuf := gr_color_render_underline (rn_color_view_of c).
+
+Lemma bind_some_id {A} (x : option A) : (v <- (r <- x ;; Some r) ;; Some v) = x.
+Proof. destruct x; reflexivity. Qed.
 
 (* the bytes a translated buffer shows: as_str of the result *)
 Definition gr_shown (x : option rn_dbuf) : option (list N) := d <- x ;; gr_as_str d.
@@ -291,8 +279,10 @@ Theorem translated_buffers_are_model (c : color) :
   gr_shown (gr_color_bg_buffer c) = rn_color_bg_buffer c /\
   gr_shown (gr_color_ul_buffer c) = rn_color_ul_buffer c.
 Proof.
-  destruct c as [a | n | r g b]; cbn [gr_color_fg_buffer gr_color_bg_buffer gr_color_ul_buffer
-    rn_color_fg_buffer rn_color_bg_buffer rn_color_ul_buffer]; repeat split; apply shown_of_sim.
+  unfold gr_color_fg_buffer, gr_color_bg_buffer, gr_color_ul_buffer,
+    gr_color_render_fg, gr_color_render_bg, gr_color_render_underline.
+  destruct c as [a | n | r g b]; cbn [rn_color_view_of rn_color_fg_buffer rn_color_bg_buffer rn_color_ul_buffer];
+    rewrite !bind_some_id; repeat split; apply shown_of_sim.
   - apply gr_ansi_fg_sim.
   - apply gr_ansi_bg_sim.
   - apply gr_ansi_ul_sim.
